@@ -11,7 +11,9 @@
    induces failures with high-entropy 12-19 character secrets over every kind, encoding and operation and greps
    every error text and every Describe output of the real library for them. The track filters are modelled
    (Model/Track.v), compared with the library by the trk topic, and for Track2 proved to show the track with the PAN
-   masked (C18_track2_filter); Track1 / Track3: model and search only. *)
+   masked (C18_track2_filter), and likewise for Track1 and Track3 (C18_track1_filter, C18_track3_filter: every
+   packable well-formed track shows its rendering with the PAN masked and nothing else changed). A track the field
+   cannot parse again is shown by its first and last four characters (repair of F31; the fall-back branch of t_filter). *)
 From Coq Require Import List Bool Strings.String.
 Import ListNotations.
 From Iso Require Import Model.Base Model.Describe Proofs.DescribeProofs Gen.ErrorSites.
@@ -88,6 +90,23 @@ Theorem C18_track2_filter : forall p t b inp, coherent_pspec p -> t2_dom t ->
   t_filter T2 p inp t = pan_filter (tk_pan t) ++ tk_sep t ++ (match tk_exp t with Some e => e | None => caret end) ++ tk_svc t ++ tk_dd t.
 Proof. exact track2_filter_masks. Qed.
 Print Assumptions C18_track2_filter.
+
+Theorem C18_track1_filter : forall p t b inp, coherent_pspec p -> t1_dom t ->
+  pad_ok (ps_pad p) (t_render T1 t) = true -> enc_dom (ps_enc p) (pad (ps_pad p) (t_render T1 t) (ps_len p)) = true ->
+  zlen (pad (ps_pad p) (t_render T1 t) (ps_len p)) <= max_int ->
+  t_pack T1 p t = Ok b ->
+  t_filter T1 p inp t = tk_fc t ++ pan_filter (tk_pan t) ++ caret ++ tk_name t ++ caret ++
+                        (match tk_exp t with Some e => e | None => caret end) ++ (match tk_svc t with [] => caret | s => s end) ++ tk_dd t.
+Proof. exact track1_filter_masks. Qed.
+Print Assumptions C18_track1_filter.
+
+Theorem C18_track3_filter : forall p t b inp, coherent_pspec p -> t3_dom t ->
+  pad_ok (ps_pad p) (t_render T3 t) = true -> enc_dom (ps_enc p) (pad (ps_pad p) (t_render T3 t) (ps_len p)) = true ->
+  zlen (pad (ps_pad p) (t_render T3 t) (ps_len p)) <= max_int ->
+  t_pack T3 p t = Ok b ->
+  t_filter T3 p inp t = tk_fc t ++ pan_filter (tk_pan t) ++ eqsign ++ tk_dd t.
+Proof. exact track3_filter_masks. Qed.
+Print Assumptions C18_track3_filter.
 
 (* the premises are satisfiable: 4111111111111111=2512101123456 under ASCII / LL 37 *)
 Definition p35 : pspec := {| ps_kind := KString; ps_enc := EncASCII; ps_pref := PVar PfASCII 2; ps_len := 37; ps_pad := PadNone; ps_packer := PkDefault |}.
